@@ -434,6 +434,46 @@ var c16Classes = []c16Class{
 		do(cn, "CLIENT", "KILL", "ID", id)
 		return nil
 	}},
+	{"kill-newcomers", func(cn *wire.Conn, rng *rand.Rand, i int, env *c16Env) error {
+		// connections are killed at the moment they come into being: client ids are handed out in sequence, so the ids
+		// just above the highest one listed belong to the connections that are being set up right now
+		v, err := cn.Do("CLIENT", "LIST")
+		if err != nil {
+			return err
+		}
+		max := int64(0)
+		for _, f := range strings.Fields(v.Text()) {
+			if strings.HasPrefix(f, "id=") {
+				if n, _ := strconv.ParseInt(f[3:], 10, 64); n > max {
+					max = n
+				}
+			}
+		}
+		done := make(chan struct{})
+		go func() {
+			defer close(done)
+			for k := 0; k < 3; k++ {
+				if tmp, err := env.e.dial(); err == nil {
+					tmp.Timeout = 300 * time.Millisecond
+					tmp.Do("PING")
+					tmp.Close()
+				}
+			}
+		}()
+		var b []byte
+		for k := int64(1); k <= 8; k++ {
+			b = append(b, resp.Cmd("CLIENT", "KILL", "ID", strconv.FormatInt(max+k, 10))...)
+		}
+		cn.Send(b)
+		for k := 0; k < 8; k++ {
+			if _, _, err := cn.ReadValue(5 * time.Second); err != nil {
+				<-done
+				return err
+			}
+		}
+		<-done
+		return nil
+	}},
 	{"info", func(cn *wire.Conn, rng *rand.Rand, i int, _ *c16Env) error {
 		if i%2 == 0 {
 			return do(cn, "INFO")
@@ -642,7 +682,7 @@ func c16RunPairs(r *verdict.Run, pairs []c16Pair, opsPerConn int, shard int) []h
 }
 
 func checkC16(r *verdict.Run) {
-	r.Rule = fmt.Sprintf("the emulator is built with -race and driven by a pair-coverage workload: %d command classes (string/list/hash/set/bitmap read+write, counters, blocking pops, set algebra, keyspace, expiry, SCAN, MULTI/EXEC, transactions with CLIENT LIST/KILL/UNBLOCK/INFO and with SELECT/FLUSHALL inside, DUMP/RESTORE, blocking pops in other databases, databases created on first SELECT, WATCH, WATCH and writes across databases, SELECT, FLUSH, DBSIZE, CLIENT LIST/INFO/SETNAME, CLIENT UNBLOCK/KILL, CLIENT KILL of connections with WATCH/EXEC/DISCARD/CLIENT INFO in flight and self-kill as the last queued command, INFO, HELLO, COMMAND, connection churn, SORT, invalid input); every scheduled pair runs 3+3 connections concurrently on the same keys, "+
+	r.Rule = fmt.Sprintf("the emulator is built with -race and driven by a pair-coverage workload: %d command classes (string/list/hash/set/bitmap read+write, counters, blocking pops, set algebra, keyspace, expiry, SCAN, MULTI/EXEC, transactions with CLIENT LIST/KILL/UNBLOCK/INFO and with SELECT/FLUSHALL inside, DUMP/RESTORE, blocking pops in other databases, databases created on first SELECT, WATCH, WATCH and writes across databases, SELECT, FLUSH, DBSIZE, CLIENT LIST/INFO/SETNAME, CLIENT UNBLOCK/KILL, CLIENT KILL of connections that are just being set up, CLIENT KILL of connections with WATCH/EXEC/DISCARD/CLIENT INFO in flight and self-kill as the last queued command, INFO, HELLO, COMMAND, connection churn, SORT, invalid input); every scheduled pair runs 3+3 connections concurrently on the same keys, "+
 		"with the periodic saver on (persist path), a second emulator instance in the same process, SetHook toggled from the host and yields injected around the data store lock; race reports are read from the GORACE log, reduced to the sorted pair of innermost emulator functions. distinct = class pairs whose operations demonstrably overlapped in time", len(c16Classes))
 	n := len(c16Classes)
 	var all []c16Pair
